@@ -111,6 +111,26 @@ type PObj struct {
 	// Ver is the API version the spec lists the object under ("" = v1).  Versions of one GroupKind
 	// are served from the same storage: (kind, ns, name) is ONE object whatever the version.
 	Ver string `json:"ver,omitempty"`
+	// Status is the `.status` stanza the MANIFEST itself carries (a CR exported from a live cluster with
+	// its status left in): "" = none, otherwise "<Ready condition status>[:<observedGeneration>]", e.g.
+	// "True", "False", "True:1".  NsThing / ClThing have a status subresource: the API ignores the
+	// stanza on every write to the main resource and answers with the stored object, so nothing the
+	// probes see may ever come from it (the model does not read the field).
+	Status string `json:"status,omitempty"`
+}
+
+// ManifestStatus builds the `.status` stanza of a manifest from PObj.Status (nil for "").
+func ManifestStatus(spec string) map[string]interface{} {
+	if spec == "" {
+		return nil
+	}
+	cond, og, hasOG := strings.Cut(spec, ":")
+	st := map[string]interface{}{"conditions": []interface{}{map[string]interface{}{"type": "Ready", "status": cond}}}
+	if hasOG {
+		n, _ := strconv.ParseInt(og, 10, 64)
+		st["observedGeneration"] = n
+	}
+	return st
 }
 
 type SObj struct {
@@ -317,6 +337,9 @@ func (p PObj) Build() corev1alpha1.ObjectSetObject {
 	u.SetNamespace(p.NS)
 	u.SetName(p.Name)
 	u.Object["spec"] = map[string]interface{}{"v": p.Payload}
+	if st := ManifestStatus(p.Status); st != nil {
+		u.Object["status"] = st
+	}
 	if p.Preset {
 		u.SetOwnerReferences([]metav1.OwnerReference{{APIVersion: "v1", Kind: "ConfigMap", Name: "preset", UID: "u-preset"}})
 	}
